@@ -208,19 +208,19 @@ type EmPack struct {
 }
 
 type EmEvent struct {
-	Step  int
+	Step   int
 	Appear int // step at which the event was first visible in the queue
-	Type  api.ReplicateAPIEventType
-	Coll  int64
-	CName string
-	Part  int64
-	PName string
-	DB    string
-	Ts    uint64
-	Task  string
-	MsgID string
-	Err   string
-	IsRep bool
+	Type   api.ReplicateAPIEventType
+	Coll   int64
+	CName  string
+	Part   int64
+	PName  string
+	DB     string
+	Ts     uint64
+	Task   string
+	MsgID  string
+	Err    string
+	IsRep  bool
 }
 
 type barrierSig struct {
@@ -235,38 +235,38 @@ type lockNote struct {
 }
 
 type rOpState struct {
-	op       *ROp
-	issued   bool
-	issuedAt int
-	done     bool
-	doneAt   int
-	err      error
+	op        *ROp
+	issued    bool
+	issuedAt  int
+	done      bool
+	doneAt    int
+	err       error
 	regAtDone int // streams of the collection registered when the call returned
 }
 
 type RigR struct {
-	sim     *Sim
-	sc      *RScript
-	mq      *SimMQ
-	tgt     *SimTarget
-	mgr     api.ChannelManager
-	ctx     context.Context
-	cancel  context.CancelFunc
-	queues  map[string]<-chan *api.ReplicateMsg
-	qorder  []string
-	Packs   []*EmPack
-	perQ    map[string]int
-	Events  []*EmEvent
-	ops     []*rOpState
-	opMu    sync.Mutex
-	replID  string
-	errSeen bool
+	sim       *Sim
+	sc        *RScript
+	mq        *SimMQ
+	tgt       *SimTarget
+	mgr       api.ChannelManager
+	ctx       context.Context
+	cancel    context.CancelFunc
+	queues    map[string]<-chan *api.ReplicateMsg
+	qorder    []string
+	Packs     []*EmPack
+	perQ      map[string]int
+	Events    []*EmEvent
+	ops       []*rOpState
+	opMu      sync.Mutex
+	replID    string
+	errSeen   bool
 	sigs      []barrierSig // barrier signals that reached a barrier goroutine (released yields)
 	evAppear  []int        // step at which each event (in channel order) was first seen in the event queue
 	evSeen    int
 	evRecv    int
 	resets    map[*msgstream.MsgPack][][2]uint64 // pack -> ranges of timestamps its messages were re-stamped to
-	mapSeen   map[string]string // channel assignment table as first observed (C16: an assignment never changes)
+	mapSeen   map[string]string                  // channel assignment table as first observed (C16: an assignment never changes)
 	noteMu    sync.Mutex
 	lockOrder map[string][]lockNote // downstream channel -> closing ticks in the order computed under the channel lock
 }
